@@ -259,7 +259,7 @@ func (c *catchInst) freshWith(active []int) *catchInst {
 	return f
 }
 
-func catchSameObs(a, b J) bool {
+func catchSameObs(a, b interface{}) bool {
 	x, _ := jsonString(a)
 	y, _ := jsonString(b)
 	return x == y
